@@ -243,6 +243,7 @@ fn api_program(ctx: &mut Ctx, t: &mut Tape) {
     parsers.push(new_parser(t));
     for _ in 0..n_ops {
         let op = t.weighted(&[22, 10, 6, 5, 5, 4, 4, 4, 9, 10, 8, 6, 4, 3]);
+        trace(&format!("op {op}"));
         match op {
             0 => {
                 // parse
@@ -540,7 +541,9 @@ fn api_program(ctx: &mut Ctx, t: &mut Tape) {
                 let total = root.descendant_count();
                 let big = [0usize, 1, 255, 256, 65535, u32::MAX as usize - 1, u32::MAX as usize];
                 for _ in 0..8 + t.below(30) {
-                    match t.below(12) {
+                    let sub = t.below(12);
+                    trace(&format!("  walk {sub} at {:?} {}..{}", c.node().kind(), c.node().start_byte(), c.node().end_byte()));
+                    match sub {
                         0 => {
                             c.goto_first_child();
                         }
@@ -570,6 +573,9 @@ fn api_program(ctx: &mut Ctx, t: &mut Tape) {
                             let n = c.node();
                             c.reset(n);
                         }
+                        // (on very deep trees the sibling/parent getters of a zero-width node take minutes under the
+                        // sanitizer - quadratic or worse in the depth - which is not what this check is about)
+                        _ if d.text.len() > 8000 => {}
                         _ => {
                             let n = c.node();
                             let _ = n.child(*t.pick(&big) as u32);
@@ -660,6 +666,7 @@ fn api_program(ctx: &mut Ctx, t: &mut Tape) {
                 let pi = t.below(parsers.len());
                 let l = parsers[pi].1;
                 let bytes = doc::gen_doc(l, DocClass::Huge, t);
+                trace(&format!("huge doc {} bytes on {}", bytes.len(), l.name));
                 if bytes.len() < 200_000 {
                     parsers[pi].0.stop_printing_dot_graphs();
                     let text = Text::new(bytes);
